@@ -227,6 +227,40 @@ def run_case(case):
                         cnt += 1
                         if m is not None and hasattr(m, "labels_"):
                             outcomes.add((k, tuple(sorted(numpy.bincount(m.labels_, minlength=k).tolist()))))
+        # the same design / batch stored behind other memory layouts and as float32
+        from checks.catalog import layouts
+        sd = case["seeds"][0]
+        Xm = numpy.random.RandomState(sd).randn(n, 2).astype(numpy.float32).astype(numpy.float64)
+        forms = layouts(Xm)[1:] + [("float32", Xm.astype(numpy.float32))]
+        for strategy in ("gain", "distance"):
+            for nm, Xl in forms:
+                m = _one_fit(numpy, ConstraintKMeans, Xl, k, strategy, True, sd, sd, sd, bad, max_iter=20)
+                cnt += 1
+            if m is None or not hasattr(m, "cluster_centers_"):
+                continue
+            mref = _one_fit(numpy, ConstraintKMeans, Xm, k, strategy, True, sd, sd, sd, bad, max_iter=20)
+            if mref is None:
+                continue
+            P = numpy.vstack([Xm[:7], Xm[:3] + 0.25])
+            base = numpy.asarray(mref.predict(P))
+            mb = ConstraintKMeans(n_clusters=k, strategy=strategy, random_state=sd, max_iter=20, n_init=2, balanced_predictions=True)
+            for att in ("cluster_centers_", "labels_", "inertia_", "n_iter_", "weights_", "n_features_in_", "_n_threads"):
+                if hasattr(mref, att):
+                    setattr(mb, att, getattr(mref, att))
+            for nm, Pl in layouts(P)[1:]:
+                cnt += 1
+                lcond = "strategy=%s,batch stored as a non-contiguous/read-only array" % strategy
+                try:
+                    got = numpy.asarray(mref.predict(Pl))
+                    if not numpy.array_equal(got, base):
+                        bad("predict depends on the memory layout of the batch", lcond, "layout %s: %r vs %r" % (nm, got.tolist(), base.tolist()))
+                    numpy.random.seed(sd)
+                    with _OwnRS(sd):
+                        bl = numpy.asarray(mb.predict(Pl))
+                    if bl.shape != (len(P),) or bl.min() < 0 or bl.max() >= k or not _sizes_ok(numpy.bincount(bl, minlength=k).tolist(), len(P), k):
+                        bad("balanced predict size outside floor/ceil", lcond, "layout %s labels %r" % (nm, bl.tolist()))
+                except Exception as e:
+                    bad("predict raises %s" % type(e).__name__, lcond, "%s layout %s" % (str(e)[:200], nm))
         return {"viol": viol, "nontrivial": True, "states": cnt, "transitions": cnt, "outcome": tuple(sorted(outcomes))[:50]}
     if case["kind"] == "fit":
         probes = numpy.vstack([X[:1], X[-1:], X[:1] + 0.5, X[-1:] - 1.5, X[n // 2:n // 2 + 1]])
